@@ -1,2 +1,104 @@
-(* placeholder *)
-From GT Require Import Base.Prelude Model.Checkers.
+(* C13 — "the library's own answer is accepted": for each generator / checker pair the model checker of
+   Model/Checkers.v returns true (= the Python checker prints OK) on the output of the model generator.
+
+   Formal reading, per pair (all at object level; printing the generator's output and parsing it back is C16/C17):
+     product      : dfa_product ptype D1 D2 = Some D            => check_dfa_product ptype n D1 D2 D = true
+     complement   : check_dfa_complement D1 (dfa_complement D1) = true, for a transition table with unique keys (a Python
+                    dict); C13_complement_needs_unique_keys shows that the model rejects a table with a repeated key
+     reverse      : dfa_reverse fresh eps D = Some N             => check_dfa_reverse n D N = true
+                    (unique keys; `fresh` is not a state of D)
+     minimal      : the Moore quotient (dfa_quotient, the checker's own reference) and the Hopcroft result (for every
+                    iteration order of the block set and every behaviour of set.pop) are accepted by check_dfa_minimal
+     NFA to DFA   : the subset automaton nfa_det N (nfa_to_dfa with sorted subsets), written as an automaton whose state
+                    labels are sets (dfa_as_nfa: every transition q -a-> q1 becomes q -a-> {q1}), is accepted
+     word lists   : a language is accepted against its own word list whenever the state bound holds
+     accept/reject: verdict lists that are all-true / all-false are accepted
+     CYK matrix   : the table of cfg_cyk_matrix laid out as the exercise asks (cyk_rows: row k, top-down, holds
+                    X[j, j + (n-1-k)] for j = 0..k) is accepted, for a valid grammar in Chomsky normal form
+     derivation   : a derivation accepted by the witness checker of C15 (derivation_ok: what cfg_derive_word returns;
+                    mode 0 leftmost, otherwise rightmost) is accepted in the same mode, and in mode 2 ("any derivation")
+                    whatever its kind; G valid with its start symbol among the variables
+     Chomsky      : the result G1 of cfg_to_chomsky passes check_chomsky for every phase number, with start = gS G1
+                    (side conditions of the conversion theorem C08). *)
+From GT Require Import Base.Prelude Base.Sort Model.DFA Model.NFA Model.DFAOps Model.Minimize Model.Lang Model.Regexp
+  Model.CFG Model.Chomsky Model.CYK Model.Simulate Model.Checkers Decide.DFAEquiv.
+From GT Require Import Proofs.DFAOpsProofs Proofs.CheckersProofs.
+From Coq Require Import Permutation.
+
+Theorem C13_product : forall (A B : Type) (HA : Eqb A) (HB : Eqb B) (ptype n : nat) (D1 : dfa A) (D2 : dfa B) (D : dfa (A * B)),
+  dfa_wf D1 -> dfa_wf D2 -> dfa_product ptype D1 D2 = Some D -> check_dfa_product ptype n D1 D2 D = true.
+Proof. exact (fun A B HA HB => @own_product_accepted A B HA HB). Qed.
+
+Theorem C13_complement : forall (A : Type) (HA : Eqb A) (D1 : dfa A),
+  NoDup (map fst (dD D1)) -> check_dfa_complement D1 (dfa_complement D1) = true.
+Proof. exact (fun A HA => @own_complement_accepted A HA). Qed.
+
+(* D_dupkey = ({0,1}, {5}, [((0,5),0); ((0,5),1); ((1,5),1)], 0, {1}) : the key (0,5) occurs twice *)
+Theorem C13_complement_needs_unique_keys :
+  dfa_wf D_dupkey /\ check_dfa_complement D_dupkey (dfa_complement D_dupkey) = false.
+Proof. exact own_complement_needs_unique_keys. Qed.
+
+Theorem C13_reverse : forall (A : Type) (HA : Eqb A) (fresh : A) (eps n : nat) (D : dfa A) (N : nfa A),
+  dfa_wf D -> NoDup (map fst (dD D)) -> ~ In fresh (dQ D) -> dfa_reverse fresh eps D = Some N ->
+  check_dfa_reverse n D N = true.
+Proof. exact (fun A HA => @own_reverse_accepted A HA). Qed.
+
+Theorem C13_minimal_quotient : forall (n : nat) (D : dfa nat) (Dq : dfa (list nat)),
+  dfa_wf D -> NoDup (dQ D) -> NoDup (dF D) ->
+  dfa_quotient canon_nat (fun l => l) (@hd_error nat) D = Some Dq -> check_dfa_minimal n D Dq = true.
+Proof. exact own_minimal_accepted. Qed.
+
+Theorem C13_minimal_hopcroft : forall (n : nat) (ordB : list (list nat) -> list (list nat)) (pick : picker (list nat * nat))
+  (D : dfa nat) (Dh : dfa (list nat)),
+  (forall l, Permutation (ordB l) l) -> picker_ok pick ->
+  dfa_wf D -> NoDup (dQ D) -> NoDup (dF D) ->
+  dfa_hopcroft canon_nat ordB pick D = Some Dh -> check_dfa_minimal n D Dh = true.
+Proof. exact own_hopcroft_accepted. Qed.
+
+Theorem C13_nfa_to_dfa : forall (eps : nat) (N : nfa nat) (D : dfa (list nat)),
+  nfa_wf N -> nfa_det N = Some D ->
+  check_nfa_to_dfa N (mkNFA (dQ D) (dS D) (map (fun e => (fst e, [snd e])) (dD D)) (dq0 D) (dF D) eps) = true.
+Proof. exact own_nfa2dfa_accepted. Qed.
+
+Theorem C13_words : forall (L : list word) (nstates max_states : nat),
+  max_states = 0 \/ nstates <= max_states -> check_language_from_words L nstates max_states L = true.
+Proof. exact own_words_accepted. Qed.
+
+Theorem C13_accepts_rejects : forall va vr : list bool,
+  Forall (fun b => b = true) va -> Forall (fun b => b = false) vr -> check_accepts_rejects va vr = true.
+Proof. exact own_accepts_rejects_accepted. Qed.
+
+Theorem C13_cyk_matrix : forall (G : cfg) (w : word), is_chomsky G -> cfg_wf G ->
+  check_cyk_matrix G w
+    (map (fun i => map (fun j => cget (cyk G w) j (j + (length w - 1 - i))) (seq 0 (S i))) (seq 0 (length w))) = true.
+Proof. exact own_cyk_accepted. Qed.
+
+Theorem C13_derivation : forall (G : cfg) (mode : nat) (w : word) (steps : list (list sym)),
+  mode <= 1 -> cfg_wf G -> In (gS G) (gV G) -> derivation_ok G mode w steps = true ->
+  check_cfg_derivation G mode w steps = true.
+Proof. exact own_derivation_accepted. Qed.
+
+Theorem C13_derivation_any : forall (G : cfg) (m k : nat) (w : word) (steps : list (list sym)),
+  cfg_wf G -> In (gS G) (gV G) -> derivation_ok G m w steps = true ->
+  check_cfg_derivation G (S (S k)) w steps = true.
+Proof. exact own_derivation_accepted_any. Qed.
+
+Theorem C13_chomsky : forall (ordV : list nat -> list nat) (stream : list nat) (G G1 : cfg) (rest : list nat) (phase n : nat),
+  (forall l, Permutation (ordV l) l) ->
+  cfg_wf G -> (forall x, In x (gV G) -> ~ In x (gSg G)) -> In (gS G) (gV G) -> (forall x, In x stream -> ~ In x (gSg G)) ->
+  to_chomsky ordV stream G = Some (G1, rest) -> check_chomsky ordV stream G G1 phase (gS G1) n = true.
+Proof. exact own_chomsky_accepted. Qed.
+
+Print Assumptions C13_product.
+Print Assumptions C13_complement.
+Print Assumptions C13_complement_needs_unique_keys.
+Print Assumptions C13_reverse.
+Print Assumptions C13_minimal_quotient.
+Print Assumptions C13_minimal_hopcroft.
+Print Assumptions C13_nfa_to_dfa.
+Print Assumptions C13_words.
+Print Assumptions C13_accepts_rejects.
+Print Assumptions C13_cyk_matrix.
+Print Assumptions C13_derivation.
+Print Assumptions C13_derivation_any.
+Print Assumptions C13_chomsky.
